@@ -533,6 +533,17 @@ def g_getitem(ctx, rng, i):
             t[idx]
         except Exception:
             pass  # judged by the monitor
+    # boolean scalars (Python and numpy) are 0-d masks: they insert an axis of length 1 or 0
+    if i % 10 < 3:
+        for idx in (True, False, np.True_, (True,), (True, Ellipsis), (np.False_, slice(None))):
+            try:
+                t.array[idx]
+            except Exception:
+                continue
+            try:
+                t[idx]
+            except Exception:
+                pass  # judged by the monitor
 
 
 def g_getitem_structured(ctx, rng, i):
@@ -766,5 +777,12 @@ def k5_rewrap_of_cut_tensor_axes(rec, feat):
             and not feat.get("int_with_array") and not feat.get("separated"))
 
 
+def k6_scalar_boolean(rec, feat):
+    """A scalar boolean (Python bool, numpy.bool_ or a 0-d boolean array) as the leading index: numpy inserts an axis of length 1 / 0 in
+    front, the library's bookkeeping treats it as an integer (Python bool) or as a mask that consumes an axis: the index types of the
+    result are not shifted by the inserted axis, or the call raises IndexError / TensorComputationError-free ValueError."""
+    return _is_getitem(rec) and feat.get("scalar_bool") is True
+
+
 CLASSIFIERS = {"k1_int_with_array": k1_int_with_array, "k3_separated_arrays": k3_separated_arrays, "k4_ellipsis_with_ndmask": k4_ellipsis_with_ndmask,
-               "k5_rewrap_of_cut_tensor_axes": k5_rewrap_of_cut_tensor_axes}
+               "k5_rewrap_of_cut_tensor_axes": k5_rewrap_of_cut_tensor_axes, "k6_scalar_boolean": k6_scalar_boolean}
